@@ -274,7 +274,9 @@ func (dest *Destination) relay() {
 		// this op won't succeed as long as the conn is busy processing/flushing
 		case conn.In <- buf:
 			conn.numBuffered.Inc(1)
+			dest.verifPoint('e')
 		default:
+			dest.verifPoint('s')
 			log.Tracef("dest %s %s nonBlockingSend -> dropping due to slow conn", dest.Key, buf)
 			// TODO check if it was because conn closed
 			// we don't want to just buffer everything in memory,
@@ -290,7 +292,9 @@ func (dest *Destination) relay() {
 		select {
 		case dest.spool.InRT <- buf:
 			log.Tracef("dest %s %s nonBlockingSpool -> added to spool", dest.Key, buf)
+			dest.verifPoint('p')
 		default:
+			dest.verifPoint('q')
 			log.Tracef("dest %s %s nonBlockingSpool -> dropping due to slow spool", dest.Key, buf)
 			dest.numDropSlowSpool.Inc(1)
 		}
@@ -306,9 +310,11 @@ func (dest *Destination) relay() {
 			if !conn.isAlive() {
 				dest.Online = false
 				if dest.Spool {
+					dest.verifPoint('R')
 					dest.tasks.Add(1)
 					go dest.collectRedo(conn)
 				} else {
+					dest.verifPoint('C')
 					conn.clearRedo()
 				}
 				conn = nil
@@ -323,14 +329,18 @@ func (dest *Destination) relay() {
 		log.Debugf("dest %v entering select. conn: %v spooling: %v slowLastloop: %v, slowNow: %v spoolQueue: %v", dest.Key, conn != nil, dest.Spool, dest.SlowLastLoop, dest.SlowNow, toUnspool != nil)
 		select {
 		case sig := <-dest.setSignalConnOnline:
+			dest.verifPoint('S')
 			signalConnOnline = sig
 		case inConnUpdate := <-dest.inConnUpdate:
 			if inConnUpdate {
+				dest.verifPoint('+')
 				numConnUpdates += 1
 			} else {
+				dest.verifPoint('-')
 				numConnUpdates -= 1
 			}
 		case conn = <-dest.connUpdates:
+			dest.verifPoint('U')
 			dest.Online = true
 			log.Infof("dest %s new conn online", dest.Key)
 			// new conn? start with a clean slate!
@@ -341,17 +351,22 @@ func (dest *Destination) relay() {
 			}
 		case <-ticker.C: // periodically try to bring connection (back) up, if we have to, and no other connect is happening
 			if conn == nil && numConnUpdates == 0 {
+				dest.verifPoint('t')
 				go dest.updateConn(dest.Addr)
+			} else {
+				dest.verifPoint('T')
 			}
 			dest.SlowLastLoop = dest.SlowNow
 			dest.SlowNow = false
 		case <-dest.flush:
+			dest.verifPoint('F')
 			if conn != nil {
 				dest.flushErr <- conn.Flush()
 			} else {
 				dest.flushErr <- nil
 			}
 		case <-dest.shutdown:
+			dest.verifPoint('X')
 			log.Infof("dest %v shutting down. flushing and closing conn", dest.Key)
 			if conn != nil {
 				conn.Flush()
@@ -362,10 +377,12 @@ func (dest *Destination) relay() {
 			}
 			return
 		case buf := <-toUnspool:
+			dest.verifPoint('u')
 			// we know that conn != nil here because toUnspool is set above
 			log.Tracef("dest %v %s received from spool -> nonBlockingSend", dest.Key, buf)
 			nonBlockingSend(buf)
 		case buf := <-dest.In:
+			dest.verifPoint('i')
 			if conn != nil {
 				log.Tracef("dest %v %s received from In -> nonBlockingSend", dest.Key, buf)
 				nonBlockingSend(buf)
@@ -374,6 +391,7 @@ func (dest *Destination) relay() {
 				nonBlockingSpool(buf)
 			} else {
 				log.Tracef("dest %v %s received from In -> no conn no spool -> drop", dest.Key, buf)
+				dest.verifPoint('n')
 				dest.numDropNoConnNoSpool.Inc(1)
 			}
 		}
